@@ -116,6 +116,10 @@ LEVEL_TEXT = ('Proved in Lean for every fault plan (unbounded hook lists, any ou
               '_partial proved for bodies assembled before the response starts or yielding bytes only). '
               'InternalRedirector: for every redirect function (history dependent) whose targets\' keys lie in a list T the '
               'loop ends after at most |T|+1 requests, fuel-independent, no key requested twice. '
+              'Lazy assembly of the WSGI pipeline under concurrent first requests (third model, any number of layers / '
+              'threads, every schedule): whatever chain a thread calls has all its layers, self.head is None or '
+              'complete; the in-place variant refuted by a witness; tied to real threads parked by events inside a '
+              'middleware constructor. '
               'Oracle only: tools wrapping the body, error_page callables of other return types, status strings.')
 LEVEL_NOTE = ('Trusted: Lean kernel (axioms propext, Classical.choice, Quot.sound only); the hand model '
               'lean/CpModel/{Hooks,Pipeline,Wsgi}.lean as validated by the differential run; the harness. Header contents '
